@@ -74,6 +74,11 @@ type FuncC struct {
 	Callsites     []*CallsiteC
 	NoSwallow     bool
 	NoSwallowTags []string
+	// cancellable: every blocking channel operation of the function is a
+	// select that also waits for cancellation (ctx.Done() or a listed field)
+	Cancellable     bool
+	CancellableTags []string
+	CancelFields    []string
 	AssumePure    bool            // purity is assumed, not inferred from the body
 	Nullable      map[string]bool // pointer parameters that may be nil
 	Hints         map[string]bool // proof hints (e.g. appendcopy)
@@ -149,7 +154,7 @@ var specRe = regexp.MustCompile(`^spec\s+([A-Za-z_][A-Za-z0-9_]*)\s*\(([^)]*)\)\
 var lemmaRe = regexp.MustCompile(`^lemma(\[[A-Za-z0-9,]+\])?\s+([A-Za-z_][A-Za-z0-9_]*)\s*\(([^)]*)\)\s*(induct\s+([A-Za-z_][A-Za-z0-9_]*))?\s*$`)
 
 var topKeywords = []string{"typeinv ", "assume-typeinv ", "spec ", "axiom ", "lemma ", "lemma[", "func ", "extern ", "funcfield ", "functype ", "nopanic "}
-var subKeywords = []string{"requires", "relies", "ensures", "defines", "invariant", "decreases", "assert", "assume", "panics", "modifies", "pure", "loop ", "callsite ", "noswallow", "ghost ", "abstracts ", "maypanic", "before:", "after:", "uses ", "ignore ", "pattern ", "preserves ", "nullable ", "havoc ", "hint ", "exhaustive"}
+var subKeywords = []string{"requires", "relies", "cancellable", "ensures", "defines", "invariant", "decreases", "assert", "assume", "panics", "modifies", "pure", "loop ", "callsite ", "noswallow", "ghost ", "abstracts ", "maypanic", "before:", "after:", "uses ", "ignore ", "pattern ", "preserves ", "nullable ", "havoc ", "hint ", "exhaustive"}
 
 func startsWithAny(s string, ks []string) bool {
 	for _, k := range ks {
@@ -360,6 +365,26 @@ func ParseContractFile(path string) (*CFile, error) {
 			}
 			curF.NoSwallow = true
 			curF.NoSwallowTags = parseTags(strings.TrimPrefix(t, "noswallow"))
+		case t == "cancellable" || strings.HasPrefix(t, "cancellable[") || strings.HasPrefix(t, "cancellable "):
+			if curF == nil {
+				return nil, errf(l, "cancellable outside func")
+			}
+			curF.Cancellable = true
+			rest := strings.TrimPrefix(t, "cancellable")
+			if strings.HasPrefix(rest, "[") {
+				i := strings.Index(rest, "]")
+				if i < 0 {
+					return nil, errf(l, "cancellable: missing ]")
+				}
+				curF.CancellableTags = parseTags(rest[:i+1])
+				rest = rest[i+1:]
+			}
+			for _, w := range strings.Fields(rest) {
+				if !strings.HasPrefix(w, "field:") {
+					return nil, errf(l, "cancellable: expected field:<name>, got %q", w)
+				}
+				curF.CancelFields = append(curF.CancelFields, strings.TrimPrefix(w, "field:"))
+			}
 		case t == "maypanic":
 			if curF == nil {
 				return nil, errf(l, "maypanic outside func")
